@@ -167,7 +167,16 @@ def parse_tags(text):
     # assert isinstance(text, unicode)
     if not text:
         return []
-    return Parser(variant="tags").parse_tags(text)
+    parser = Parser(variant="tags")
+    tags = []
+    for line_number, line in enumerate(text.splitlines(), 1):
+        line = line.strip()
+        if not line or line.startswith("#"):
+            # -- SKIP: Empty lines and comment lines.
+            continue
+        parser.line = line_number
+        tags.extend(parser.parse_tags(line))
+    return tags
 
 
 # -----------------------------------------------------------------------------
@@ -841,7 +850,6 @@ class Parser(object):
         :param line:   Line with one/more tags to process.
         :raise ParserError: If syntax error is detected.
         """
-        assert line.startswith("@")
         tags = []
         for word in line.split():
             if word.startswith("@"):
